@@ -21,6 +21,8 @@ def monitors(ctx):
 
 def run(ctx):
     monitor.enable(*monitors(ctx))
+    from .. import w_suite
+    w_suite.maybe(ctx)      # thorough tier: the repository's own tests under this property's monitors
     ctx.floor('C10.merge_consistent', 300)
     ctx.floor('C10.embed', 300)
     ctx.floor('C10.mask', 300)
